@@ -45,6 +45,7 @@ class Ctx:
         self.guard_intern = {}
         self.explorer = None
         self.strict = False        # differentiability mode: decisions exclude ties
+        self.eq_decisions = False  # with strict: `==` / `!=` are still real decisions (only ties of inequalities are excluded)
         self.merge_sign = False    # np.sign/np.abs produce sgn atoms instead of forking
         self.assumptions = []      # z3 Bool terms
         self.exp_atoms = []        # fids of exp atoms (for congruence / monotonicity axioms)
@@ -862,9 +863,9 @@ def compare0(d, op, _canon=True):
     t = z3signpoly(Rat(Fraction(1), d.f))
     if CTX.strict:
         # differentiability mode: ties are outside the region looked at
-        if op in ("==", "!="):
+        if op in ("==", "!=") and not CTX.eq_decisions:
             return op == "!="
-        z = {"<": t < 0, "<=": t < 0, ">": t > 0, ">=": t > 0}[op]
+        z = {"<": t < 0, "<=": t < 0, ">": t > 0, ">=": t > 0, "==": t == 0, "!=": t != 0}[op]
     else:
         z = {"<": t < 0, "<=": t <= 0, ">": t > 0, ">=": t >= 0, "==": t == 0, "!=": t != 0}[op]
     return SymBool(z)
